@@ -155,7 +155,7 @@ func shapeRoot(r *rand.Rand, doc string) (string, string) {
 	issOpen := strings.Index(rest, "<saml:Issuer>")
 	issClose := strings.Index(rest, "</saml:Issuer>")
 	kinds := []string{"dup-id-around-prefixed", "dup-dest-around-prefixed", "dup-id", "dup-destination", "dup-inresponseto", "prefixed-id", "prefixed-destination", "attr-refs", "attr-whitespace", "two-issuers", "two-issuers-rev", "foreign-issuer-first", "foreign-issuer-last",
-		"nested-issuer", "no-root-issuer", "empty-issuer", "empty-issuer-selfclosed", "empty-issuer-blank", "empty-issuer", "issuer-comment", "issuer-cdata", "issuer-refs", "issuer-attrs", "bom", "doctype", "leading-stuff", "decl-utf8", "decl-latin1", "decl-utf16-label", "decl-ascii", "decl-standalone", "version-dup", "xml-attrs", "trailing-stuff"}
+		"nested-issuer", "nested-issuer-html-name", "nested-issuer-html-name", "text-in-html-name", "no-root-issuer", "empty-issuer", "empty-issuer-selfclosed", "empty-issuer-blank", "empty-issuer", "issuer-comment", "issuer-cdata", "issuer-refs", "issuer-attrs", "bom", "doctype", "leading-stuff", "decl-utf8", "decl-latin1", "decl-utf16-label", "decl-ascii", "decl-standalone", "version-dup", "xml-attrs", "trailing-stuff"}
 	k := kinds[r.IntN(len(kinds))]
 	pre := ""
 	switch k {
@@ -206,6 +206,25 @@ func shapeRoot(r *rand.Rand, doc string) (string, string) {
 	case "nested-issuer":
 		if issOpen >= 0 {
 			rest = rest[:issOpen] + `<samlp:Extensions><saml:Issuer>https://evil-idp.example/</saml:Issuer></samlp:Extensions>` + rest[issOpen:]
+		}
+	case "nested-issuer-html-name", "text-in-html-name":
+		// an unknown child of the root whose name a lenient (HTML-minded) tokenizer would treat as self-closing: its
+		// content stays its content
+		name := pick(r, []string{"meta", "link", "br", "img", "input", "hr", "area", "base", "col", "embed", "param", "source", "track", "wbr", "META", "x:meta", "p", "li", "info"})
+		open, closeTag := "<"+name+">", "</"+name+">"
+		if strings.HasPrefix(name, "x:") {
+			open = "<" + name + ` xmlns:x="urn:x">`
+		}
+		inner := "<saml:Issuer>https://evil-idp.example/</saml:Issuer>"
+		if k == "text-in-html-name" {
+			inner = "text &amp; more"
+		}
+		if issOpen >= 0 && issClose > issOpen {
+			at := issOpen
+			if r.IntN(2) == 0 {
+				at = issClose + len("</saml:Issuer>")
+			}
+			rest = rest[:at] + open + inner + closeTag + rest[at:]
 		}
 	case "no-root-issuer":
 		if issOpen >= 0 && issClose > issOpen {
